@@ -35,6 +35,7 @@ type c07Cfg struct {
 	GenSel        bool
 	OwnCondition  bool // the hook returns its own `Updated` condition
 	AbsentPath    bool // (with CustomPaths) the field paths are [spec.optional, spec.template] and spec.optional was never set on the parent
+	EmptyHistory  bool // a revisionHistory block with an empty fieldPaths list: the same as no block at all
 	EchoMeta      bool // read-modify-return hook: every desired child carries the uid and resourceVersion of the child it observed (and always has: the last-applied records contain them too)
 }
 
@@ -81,6 +82,7 @@ func c07Run(c c07Case) []mc.Finding {
 	ck, cns := kit.Widget, "n1"
 	o := ccOpt{parent: kit.Thing, children: []*sim.Kind{ck}, generateSel: cfg.GenSel,
 		methods: map[string]v1alpha1.ChildUpdateMethod{ck.Resource: v1alpha1.ChildUpdateMethod(cfg.Method)}}
+	o.emptyHistory = cfg.EmptyHistory
 	if cfg.CustomPaths {
 		o.fieldPaths = []string{"spec.template"}
 		if cfg.AbsentPath {
@@ -276,6 +278,10 @@ func c07Run(c c07Case) []mc.Finding {
 		raw, _ := k8sjson2.Marshal(r["parentPatch"])
 		_ = k8sjson2.Unmarshal(raw, &pp)
 		v := kit.Str(pp, "spec", "template", "ver")
+		if len(v) < 2 {
+			bad("revision-without-revisioned-fields", "ControllerRevision %s records the parent patch %s: the revisioned fields of the parent (here at least spec.template) are not in it", kit.Name(r), kit.JSON(r["parentPatch"]))
+			return f
+		}
 		for _, g := range kit.List(r, "children") {
 			for _, nm := range kit.List(g, "names") {
 				after[nm.(string)] = int(v[1] - '0')
@@ -443,13 +449,13 @@ func TestVerifC07(t *testing.T) {
 	cfgI := 0
 	for _, method := range []string{"RollingInPlace", "RollingRecreate"} {
 		for checks := 0; checks < 4; checks++ {
-			for fp := 0; fp < 4; fp++ {
+			for fp := 0; fp < 5; fp++ {
 				for latest := 2; latest <= 3; latest++ {
 					for _, exists := range []bool{true, false} {
 						for _, own := range []bool{false, true} {
 							cfgI++
-							cfg := c07Cfg{Method: method, Checks: checks, CustomPaths: fp >= 1, CommonChanged: fp == 2, AbsentPath: fp == 3, LatestVer: latest, LatestExists: exists, GenSel: cfgI%2 == 0, OwnCondition: own}
-							if fp == 3 && checks != 0 {
+							cfg := c07Cfg{Method: method, Checks: checks, CustomPaths: fp >= 1 && fp <= 3, CommonChanged: fp == 2, AbsentPath: fp == 3, EmptyHistory: fp == 4, LatestVer: latest, LatestExists: exists, GenSel: cfgI%2 == 0, OwnCondition: own}
+							if fp >= 3 && checks != 0 {
 								continue // the several-paths configuration is orthogonal to the status checks
 							}
 							if own && (checks != 2 || fp != 0) {
